@@ -184,6 +184,17 @@ def run(chk, replay=None):
         etas = sorted({n["eta"] for n in rec["trs"][0]["nodes"] if n["eta"]})
         sig = f"{clause}:constrained-nodes={min(n_constrained, 2)}{'+' if n_constrained > 2 else ''}:{'unlike-eta' if len(etas) > 1 else 'like-eta'}"
         chk.violation(sig, f"{label} cfg={rec['cfg']}: chains {info[0]} and {info[1]} share a coefficient, signs {info[2]}, {info[3]}, required product of eta over the reversed nodes {info[4]}", {"label": label, "cfg": rec["cfg"], "trs": [rec["trs"][info[0] - 1], rec["trs"][info[1] - 1]]})
+    # the 'equivalently' clause speaks of THE Clebsch-Gordan expansion: the canonical chains have to carry exactly the documented
+    # factors CG(L,0;S,lambda|J,lambda) CG(s1,l1;s2,-l2|S,lambda) with lambda = l1 - l2 in the daughter order of the helicity
+    # chain (Amplitude.tla: ChainCG) - judged on a reaction whose isobars are on either side of the bachelor
+    ccases = ampl_run.build_cases(chk, n_synth=0, configs=lambda r, re_, l: iter([{}]), real=[("jpsi_3pi_rho", "canonical-helicity")], which={"formula"}, budget_s=120)
+    ccases = [c for c in ccases if c[3] is not None]
+    if ccases:
+        tvx, _, xbyid = ampl_run.validate(chk, ccases, name="trace_amplitude_cg_factors")
+        for clause, rid, info in tvx.rejects:
+            chk.violation(f"{clause}:canonical:cg-expansion-factors", f"{clause} rejected for {xbyid[rid][0]}: {str(info)[:500]}", {"label": xbyid[rid][0], "record": xbyid[rid][4]})
+        chk.count(len(ccases))
+        chk.part("cg_expansion_factors", models=len(ccases), chains=tvx.stats.get("chains", 0))
     # the 'equivalently' clause on real reactions available in both formalisms (observation law)
     cg = []
     for nm in (["jpsi_ksp_sigma"] + (["jpsi_gpp_f2", "jpsi_gpp_f0"] if tier == "thorough" else [])):
